@@ -44,6 +44,11 @@ type C07Op struct {
 	// is overwritten by its same-length variant and keeps its modification time (an edit within
 	// one tick of a coarse file-system clock, cp -p, rsync -t): a clock fault
 	EditInPlace bool `json:"edit_in_place,omitempty"`
+	// Symlinks: the delivered source files are symbolic links to files kept elsewhere (shared
+	// checkouts, build-tool exec roots)
+	Symlinks bool `json:"symlinks,omitempty"`
+	// NoIdent (full pass): the identifier set handed over is empty (what `coca analysis` does by default)
+	NoIdent bool `json:"no_ident,omitempty"`
 }
 
 type C07Proc struct {
@@ -150,6 +155,8 @@ func genHistory(t *tape.Tape, nFiles int, thorough bool, passes []string) []C07P
 				if t.Bool(1, 3) {
 					op.ArgForm = t.Int(1, 3)
 				}
+				op.Symlinks = t.Bool(1, 6)
+				op.NoIdent = op.Pass == "full" && t.Bool(1, 4)
 				if (op.Pass == "bs" || op.Pass == "api") && t.Bool(1, 5) {
 					for k := len(proc.Ops) - 1; k >= 0; k-- {
 						already := false
@@ -251,11 +258,12 @@ func (C07) Assumptions() []string {
 // ---- execution ----
 
 type c07run struct {
-	ctx   *sim.RunCtx
-	sc    *C07Scenario
-	out   *sim.Outcome
-	paths map[string]string // materialised absolute path -> logical "<ID>"
-	seq   int
+	symlinks bool // place() creates symbolic links to files in a side store
+	ctx      *sim.RunCtx
+	sc       *C07Scenario
+	out      *sim.Outcome
+	paths    map[string]string // materialised absolute path -> logical "<ID>"
+	seq      int
 }
 
 // place writes file fi under a fresh directory entry and returns its path.
@@ -266,7 +274,18 @@ func (r *c07run) place(dir string, pos int, fi int) (string, error) {
 	if err := os.MkdirAll(filepath.Dir(p), 0755); err != nil {
 		return "", err
 	}
-	if err := os.WriteFile(p, []byte(f.Text), 0644); err != nil {
+	if r.symlinks {
+		r.seq++
+		store := filepath.Join(r.ctx.Dir, "store", fmt.Sprintf("s%d_%s.java", r.seq, f.ID))
+		os.MkdirAll(filepath.Dir(store), 0755)
+		if err := os.WriteFile(store, []byte(f.Text), 0644); err != nil {
+			return "", err
+		}
+		if err := os.Symlink(store, p); err != nil {
+			return "", err
+		}
+		r.out.Faults["source-file-is-symlink"]++
+	} else if err := os.WriteFile(p, []byte(f.Text), 0644); err != nil {
 		return "", err
 	}
 	r.paths[p] = "<" + f.ID + ">"
@@ -695,6 +714,33 @@ func (C07) Run(ctx *sim.RunCtx, data json.RawMessage) (*sim.Outcome, error) {
 		return sim.Op{Op: "rcall", Args: map[string]interface{}{"target": root, "model": modelFiles[mi]}}, fmt.Sprintf("rcall|%d|%s", mi, root)
 	}
 
+	// references of the full pass with an EMPTY identifier set, computed on first use
+	full0 := make([]ref, n)
+	full0Done := false
+	ensureFull0 := func() error {
+		if full0Done {
+			return nil
+		}
+		full0Done = true
+		for i := range sc.Files {
+			if excluded[i] {
+				continue
+			}
+			rec, err := pristine(sim.Op{Op: "full", Args: map[string]interface{}{"ident": "", "files": []string{refPath[i]}}})
+			if err != nil {
+				return err
+			}
+			if rec == nil || !rec.OK {
+				continue
+			}
+			l, err := canonList(r.normalise(rec.Result))
+			if err != nil {
+				return sim.Harness("full result: %v", err)
+			}
+			full0[i] = ref{ok: true, list: l}
+		}
+		return nil
+	}
 	seen := map[string]bool{}
 	add := func(class, detail string, sig map[string]string) {
 		if seen[class] {
@@ -723,6 +769,7 @@ func (C07) Run(ctx *sim.RunCtx, data json.RawMessage) (*sim.Outcome, error) {
 			}
 			d := delivered{files: files}
 			hist = append(hist, fmt.Sprintf("%s%d", op.Pass, len(files)))
+			r.symlinks = op.Symlinks
 			switch op.Pass {
 			case "ident", "full":
 				dir := r.newDir()
@@ -739,6 +786,11 @@ func (C07) Run(ctx *sim.RunCtx, data json.RawMessage) (*sim.Outcome, error) {
 				}
 				if op.Pass == "ident" {
 					proc.Ops = append(proc.Ops, sim.Op{Op: "ident", Args: map[string]interface{}{"files": paths}})
+				} else if op.NoIdent {
+					if err := ensureFull0(); err != nil {
+						return nil, err
+					}
+					proc.Ops = append(proc.Ops, sim.Op{Op: "full", Args: map[string]interface{}{"ident": "", "files": paths}})
 				} else {
 					proc.Ops = append(proc.Ops, sim.Op{Op: "full", Args: map[string]interface{}{"ident": identFile, "files": paths}})
 				}
@@ -800,6 +852,7 @@ func (C07) Run(ctx *sim.RunCtx, data json.RawMessage) (*sim.Outcome, error) {
 			default:
 				return nil, sim.Harness("unknown pass %q", op.Pass)
 			}
+			r.symlinks = false
 			dl = append(dl, d)
 			procIdx = append(procIdx, len(proc.Ops)-1)
 		}
@@ -862,8 +915,23 @@ func (C07) Run(ctx *sim.RunCtx, data json.RawMessage) (*sim.Outcome, error) {
 					return nil, sim.Harness("%s result: %v", op.Pass, err)
 				}
 				var want []string
+				skipJudge := false
 				for _, fi := range files {
-					want = append(want, refs[op.Pass][fi].list...)
+					if op.Pass == "full" && op.NoIdent {
+						if !full0[fi].ok {
+							skipJudge = true
+						}
+						want = append(want, full0[fi].list...)
+					} else {
+						want = append(want, refs[op.Pass][fi].list...)
+					}
+				}
+				if skipJudge {
+					out.Probes["no-ident-reference-missing"]++
+					continue
+				}
+				if op.Pass == "full" && op.NoIdent {
+					out.Faults["empty-identifier-set"]++
 				}
 				if path, g, w := firstDiff(got, want); path != "" {
 					names := []string{}
